@@ -4,13 +4,15 @@
 (*   "sweep"  every name of the table under every unary template              *)
 (*   "build"  a builder machine (wrap the tree with an operator and a sibling *)
 (*            of depth <= 1) explored by TLC's simulator to depth MaxD        *)
+(*   "mag"    magnitude: extreme-scale names under large integer exponents     *)
+(*   "expform" every exponent/coefficient spelling form in every position      *)
 (*   "py"     the Python corner: head x trailers x wrapper x warm/cold parser  *)
 (*   "persist" registry kind x unit form x carrier x persistence route         *)
 (*   "tok"    every token sequence of length <= MaxTok over the tokens TokPick *)
 (*            of the alphabet, for each joiner                                *)
 (* Cases are exported as JSON records from the invariant Export.              *)
 EXTENDS Parser
-CONSTANTS Mode, Depth, NGenNames, NGenCoefs, NGenExps, MaxD, MaxTok, TokPick, NJoin, Thin, MaxTr, MaxTrW
+CONSTANTS Mode, Depth, NGenNames, NGenCoefs, NGenExps, MaxD, MaxTok, TokPick, NJoin, Thin, MaxTr, MaxTrW, ExpPick
 GN == 1..NGenNames
 GC == 1..NGenCoefs
 GE == 1..NGenExps
@@ -20,6 +22,19 @@ T1 == Trees(1, GN, GC, GE)
 Sib == LET L == Leaves(GN, GC) IN L \cup Unary(L)
 ValidSet == Trees(Depth, GN, GC, GE)
 SweepSet == LET L == {<<NameTok(k)>> : k \in GN} IN L \cup Unary(L)
+\* magnitude: names with extreme scales (first name of the table: g) under the large integer exponents ExpPick -
+\* as a power, a product / quotient of two powers, a power of a power, and in a quotient under g
+PowE(e, a) == <<PowTok(e)>> \o a
+MagSet == LET N == {<<NameTok(k)>> : k \in GN}
+              P1 == {PowE(e, n) : e \in ExpPick, n \in N} IN
+          P1 \cup {<<op>> \o x \o y : op \in {MUL, DIV}, x \in P1, y \in {PowE(e, <<NameTok(2)>>) : e \in ExpPick}}
+             \cup {<<op>> \o PowE(e1, n) \o PowE(e2, n) : op \in {MUL, DIV}, e1 \in ExpPick, e2 \in ExpPick, n \in N}
+             \cup {PowE(e, x) : e \in {3, 7, 11}, x \in P1}
+             \cup {<<DIV, NameTok(1)>> \o x : x \in P1}
+\* exponent forms: every tree of depth <= 1 and every unary wrapper of one, rendered in the FormStyles
+FormSet == T1 \cup Unary(T1)
+StyleSeq == IF Mode = "expform" THEN FormStyles ELSE PlainStyles
+NextSet(S) == c = <<>> /\ \E a \in S : Good(a) /\ c' = [k |-> "ast", a |-> a, d |-> 0]
 Init == IF Mode = "build" THEN c \in {[k |-> "ast", a |-> t, d |-> 0] : t \in {x \in Sib : Good(x)}} ELSE c = <<>>
 NextValid == c = <<>> /\ \E a \in ValidSet : Good(a) /\ c' = [k |-> "ast", a |-> a, d |-> 0]
 NextSweep == c = <<>> /\ \E a \in SweepSet : Good(a) /\ c' = [k |-> "ast", a |-> a, d |-> 0]
@@ -37,6 +52,7 @@ NextPersist == c = <<>> /\ \E rk \in DOMAIN RegKinds : \E f \in DOMAIN Forms : \
                  PersistCase(RegKinds[rk], Forms[f], Carriers[ca], Routes[rt])
                  /\ c' = [k |-> "persist", rk |-> RegKinds[rk], f |-> Forms[f], ca |-> Carriers[ca], rt |-> Routes[rt]]
 Next == CASE Mode = "valid" -> NextValid [] Mode = "sweep" -> NextSweep [] Mode = "build" -> NextBuild
+          [] Mode = "mag" -> NextSet(MagSet) [] Mode = "expform" -> NextSet(FormSet)
           [] Mode = "py" -> NextPy [] Mode = "persist" -> NextPersist [] OTHER -> NextTok
 \* deterministic thinning of the simulator's export (it evaluates the invariant on every successor)
 RECURSIVE WSum(_, _)
@@ -47,5 +63,5 @@ Export ==
   ELSE IF c.k = "persist" THEN PrintT(ToJson([tag |-> "PERSIST", rk |-> c.rk, f |-> c.f, ca |-> c.ca, rt |-> c.rt]))
   ELSE IF c.k = "tok" THEN PrintT(ToJson([tag |-> "TOK", t |-> c.t, j |-> c.j, x |-> [n \in DOMAIN c.t |-> Toks[c.t[n]].s], pred |-> TokPredict(c.t), feat |-> TokFeatures(c.t)]))
   ELSE (Mode = "build" /\ (c.d < MaxD \/ WSum(c.a, Len(c.a)) % Thin # 0)) \/
-       PrintT(ToJson([tag |-> "AST", a |-> c.a, sp |-> Spellings(c.a), sem |-> Sem(c.a, "name"), cf |-> Sem(c.a, "name").coef = ROne]))
+       PrintT(ToJson([tag |-> "AST", a |-> c.a, st |-> StyleSeq, sp |-> Spellings(c.a, StyleSeq), ext |-> Extreme(c.a), sem |-> Sem(c.a, "name"), cf |-> Sem(c.a, "name").coef = ROne]))
 =============================================================================
